@@ -37,6 +37,14 @@ ASSUMPTIONS = [
     "and for a share of the other cases); footprints compared bit-exactly within one batch shape, cross-batch "
     "comparisons with tolerance 1e-9 (float64) / 2e-4 (float32) relative",
     "infinities are not modelled; non-mutation of the caller's tensors is observed by snapshots, not proved",
+    "'any parameter initialisation' = any values of the learnable parameters with torch's padding rows "
+    "(Embedding / EmbeddingBag padding_idx=0) zero, which is what construction and reset_parameters() guarantee: "
+    "70% of the cases add seeded noise to every parameter and re-zero the padding rows, 30% use reset_parameters() "
+    "alone (nothing re-zeroed by the harness); a user overwriting Embedding.weight[0] is outside the quantifier "
+    "(hypothesis cell_shape_ok of na_none_zero)",
+    "numeric agreement model vs implementation (1e-9, exact rationals) is checked for the affine encoders "
+    "(Linear, Stack, Embedding, LinearEmbedding, bags in sum/mean mode) on the module's real parameters in "
+    "float64; the other classes (bucket, periodic, ExcelFormer, timestamp, max bags) are tied structurally only",
     "the wrapper around user models (LinearModelEncoder) is excluded by the property itself",
 ]
 
@@ -183,7 +191,8 @@ def gen_enc_case(rng, tier, cls=None):
         stats_pert = [j, s2]
     return {"kind": "enc", "cls": cls, "stype": st, "kw": kw, "na": na, "post": rng.pick(H.POSTS), "channels": ch,
             "f64": f64, "stats": stats, "feat": feat, "ncols": ncols, "perts": perts, "sel": sel,
-            "stats_pert": stats_pert, "seed": rng.randint(0, 10 ** 6)}
+            "stats_pert": stats_pert, "params": "reset" if rng.chance(0.3) else "noise",
+            "seed": rng.randint(0, 10 ** 6)}
 
 
 def reject_cases():
@@ -195,7 +204,7 @@ def reject_cases():
 
 
 def generate(rng, tier):
-    n = 520 if tier == "quick" else 8000
+    n = 440 if tier == "quick" else 8000
     cases = reject_cases()
     classes = list(KINDS)
     for i in range(n):
@@ -268,6 +277,58 @@ def run(case):
         return run_enc(case)
 
 
+def set_params(case, enc):
+    """'noise': seeded noise on every parameter, torch's padding rows re-zeroed; 'reset': the library's own
+    reset_parameters() alone (nothing re-zeroed by the harness)."""
+    if case.get("params", "noise") == "noise":
+        H.randomize(enc, case["seed"])
+    else:
+        torch.manual_seed(case["seed"] + 1)
+        enc.reset_parameters()
+
+
+AFFINE = ("LinearEncoder", "StackEncoder", "EmbeddingEncoder", "LinearEmbeddingEncoder")
+
+
+def numeric_class(case):
+    return case["cls"] in AFFINE or (case["cls"] == "MultiCategoricalEmbeddingEncoder"
+                                     and case["kw"]["mode"] in ("sum", "mean"))
+
+
+def real_params(case, enc):
+    """The module's own parameters (post-module excluded), as nested float lists, in the roles the model's
+    constructors take them; None when they cannot be identified by shape (no alarm, only no numeric term)."""
+    ps = [(n, p.detach()) for n, p in enc.named_parameters() if not n.startswith("post_module")]
+    nc, ch, cls = case["ncols"], case["channels"], case["cls"]
+    try:
+        if cls == "StackEncoder":
+            return {} if not ps else None
+        if cls == "LinearEncoder":
+            if len(ps) != 2 or any(tuple(p.shape) != (nc, ch) for _, p in ps):
+                return None
+            ps.sort(key=lambda q: "bias" in q[0])
+            return {"w": ps[0][1].tolist(), "b": ps[1][1].tolist()}
+        if cls == "EmbeddingEncoder":
+            rows = sum(len(s_["COUNT"][0]) for s_ in case["stats"]) + 1
+            if len(ps) != 1 or tuple(ps[0][1].shape) != (rows, ch):
+                return None
+            return {"table": ps[0][1].tolist()}
+        if cls == "MultiCategoricalEmbeddingEncoder":
+            if len(ps) != nc or any(p.dim() != 2 or p.shape[1] != ch for _, p in ps):
+                return None
+            return {"tables": [p.tolist() for _, p in ps]}
+        if cls == "LinearEmbeddingEncoder":
+            dims = [s_["EMB_DIM"] for s_ in case["stats"]]
+            bias = [q for q in ps if "bias" in q[0]]
+            ws = [q for q in ps if "bias" not in q[0]]
+            if len(bias) != 1 or tuple(bias[0][1].shape) != (nc, ch) or [tuple(p.shape) for _, p in ws] != [(d, ch) for d in dims]:
+                return None
+            return {"ws": [p.tolist() for _, p in ws], "b": bias[0][1].tolist()}
+    except Exception:
+        return None
+    return None
+
+
 def run_enc(case):
     st = case["stype"]
     obs = {"stage": None}
@@ -275,7 +336,7 @@ def run_enc(case):
         torch.manual_seed(case["seed"])
         enc, tap = H.build_encoder({"cls": case["cls"], "na": case["na"], "post": case["post"], "kw": case["kw"]},
                                    case["channels"], [H.stats_to_lib(s) for s in case["stats"]], st)
-        H.randomize(enc, case["seed"])
+        set_params(case, enc)
         enc.eval()
     except Exception as ex:
         return {"ok": False, "stage": "construct", "exc": C.exc_name(ex), "msg": str(ex)[:300], "tb": C.fmt_exc()}
@@ -284,6 +345,8 @@ def run_enc(case):
         out, pre, same = call(enc, tap, feat)
     except Exception as ex:
         return {"ok": False, "stage": "call", "exc": C.exc_name(ex), "msg": str(ex)[:300], "tb": C.fmt_exc()}
+    if case["f64"] and numeric_class(case):
+        obs["real_params"] = real_params(case, enc)
     obs.update(ok=True, shape=list(out.shape), pre_shape=list(pre.shape), dtype=str(out.dtype),
                finite=bool(torch.isfinite(out).all()), mutated=not same,
                pre=pre.tolist(), zeros=[[bool((pre[r, c] == 0).all()) for c in range(pre.shape[1])]
@@ -327,7 +390,7 @@ def run_enc(case):
             st2 = [s2 if k == j else s for k, s in enumerate(case["stats"])]
             enc2, tap2 = H.build_encoder({"cls": case["cls"], "na": case["na"], "post": case["post"], "kw": case["kw"]},
                                          case["channels"], [H.stats_to_lib(s) for s in st2], st)
-            H.randomize(enc2, case["seed"])
+            set_params(case, enc2)
             enc2.eval()
             o5, p5, _ = call(enc2, tap2, to_lib(case, case["feat"]))
             cc = changed_cells(pre, p5)
@@ -559,7 +622,8 @@ def nontrivial_sig(case, obs):
 
 def stats(cases, obss):
     d = {"classes": {}, "na": {}, "post": {}, "rows": {}, "cols": {}, "f64": 0, "raised": 0, "missing_cells": 0,
-         "cells": 0, "perturbations": 0, "perturbations_effective": 0, "reject_cases": 0, "total": 0}
+         "cells": 0, "perturbations": 0, "perturbations_effective": 0, "reject_cases": 0, "total": 0,
+         "param_modes": {}, "numeric_terms": {}, "missing_embedding_reset_mode": 0}
     for c, o in zip(cases, obss):
         if c is None:
             continue
@@ -574,6 +638,12 @@ def stats(cases, obss):
         d["cols"][c["ncols"]] = d["cols"].get(c["ncols"], 0) + 1
         d["f64"] += bool(c["f64"])
         d["raised"] += not o.get("ok", False)
+        d["param_modes"][c.get("params", "noise")] = d["param_modes"].get(c.get("params", "noise"), 0) + 1
+        if o.get("real_params") is not None:
+            d["numeric_terms"][c["cls"]] = d["numeric_terms"].get(c["cls"], 0) + 1
+        if (c.get("params") == "reset" and c["na"] is None and c["stype"] in ("categorical", "multicategorical")
+                and any(is_missing(c["stype"], cell) for row in c["feat"] for cell in row)):
+            d["missing_embedding_reset_mode"] += 1
         for row in c["feat"]:
             for cell in row:
                 d["cells"] += 1
@@ -582,6 +652,36 @@ def stats(cases, obss):
             d["perturbations"] += 1
             d["perturbations_effective"] += bool(f.get("pre"))
     return d
+
+
+def sanity(cases, obss):
+    """Fail-closed distribution check: every class, every admissible strategy, both parameter modes, missing
+    cells, empty batches and effective perturbations must be drawn; raising cases stay a small minority."""
+    d = stats(cases, obss)
+    probs = []
+    n = d["total"] - d["reject_cases"]
+    for cls in KINDS:
+        if d["classes"].get(cls, 0) == 0:
+            probs.append(f"encoder class {cls} never drawn")
+    for na in ["None"] + H.ALL_NA:
+        if d["na"].get(na, 0) == 0:
+            probs.append(f"NA strategy {na} never drawn")
+    for mode in ("noise", "reset"):
+        if d["param_modes"].get(mode, 0) == 0:
+            probs.append(f"parameter mode {mode} never drawn")
+    if d["reject_cases"] < len(KINDS) * (len(H.ALL_NA) + 1):
+        probs.append("strategy / stype rejection table not enumerated")
+    if n and d["raised"] > 0.2 * n:
+        probs.append(f"{d['raised']} of {n} encoder cases raise")
+    if d["missing_cells"] == 0 or d["rows"].get(0, 0) == 0:
+        probs.append("no missing cell / no empty batch drawn")
+    if d["perturbations"] and d["perturbations_effective"] < 0.5 * d["perturbations"]:
+        probs.append("fewer than half of the single-cell perturbations changed anything")
+    if n >= 200 and d["missing_embedding_reset_mode"] == 0:
+        probs.append("missing categorical / multicategorical cell never encoded with reset_parameters() alone")
+    if n >= 200 and not d["numeric_terms"]:
+        probs.append("no numeric (real-parameter) correspondence term was produced: parameters not identifiable")
+    return probs
 
 
 # -------------------------------------------------------------------- Coq side
@@ -637,6 +737,26 @@ def coq_encoder(case):
     raise ValueError(cls)
 
 
+def qmat(m):
+    return C.clist(m, lambda row: C.clist(row, lambda v: H.cq(Fraction(v))))
+
+
+def coq_encoder_real(case, rp):
+    cls = case["cls"]
+    if cls == "StackEncoder":
+        return "(EStack QS)"
+    if cls == "LinearEncoder":
+        return f"(ELinear QS {qmat(rp['w'])} {qmat(rp['b'])})"
+    if cls == "EmbeddingEncoder":
+        return f"(EEmbedding QS {qmat(rp['table'])})"
+    if cls == "MultiCategoricalEmbeddingEncoder":
+        mode = {"mean": "BagMean", "sum": "BagSum"}[case["kw"]["mode"]]
+        return f"(EBags QS {mode} {C.clist(rp['tables'], qmat)})"
+    if cls == "LinearEmbeddingEncoder":
+        return f"(ELinEmb QS {C.clist(rp['ws'], qmat)} {qmat(rp['b'])})"
+    raise ValueError(cls)
+
+
 def coq_input(case, cells):
     st = case["stype"]
     if st == "numerical":
@@ -661,7 +781,7 @@ def coq_term(case, obs):
            f"{case['channels']}%nat {H.cna(case['na'])})")
     x = coq_input(case, case["feat"])
     if not obs.get("ok"):
-        return f"check_enc {cfg} {x} true [] [] None"
+        return f"check_enc true {cfg} {x} true [] [] None"
     perts = []
     for (r, j, v), f in zip(case["perts"], obs["foot"]):
         if "exc" in f or f.get("pre") is None:
@@ -671,4 +791,13 @@ def coq_term(case, obs):
         perts.append(f"({coq_input(case, cells)}, {C.clist(f['pre'], lambda c: f'({c[0]}%nat, {c[1]}%nat)')})")
     imp = "None" if case["na"] is None else f"(Some {coq_input(case, impute(case, case['feat']))})"
     zeros = C.clist(obs["zeros"], lambda row: C.clist(row, C.cbool))
-    return f"check_enc {cfg} {x} false {zeros} {C.clist(perts)} {imp}"
+    strict = C.cbool(case.get("params", "noise") == "noise")
+    term = f"check_enc {strict} {cfg} {x} false {zeros} {C.clist(perts)} {imp}"
+    rp = obs.get("real_params")
+    if rp is not None:
+        cfg2 = (f"(qconfig {coq_encoder_real(case, rp)} "
+                f"{C.clist(case['stats'], lambda s_: coq_stats(case['stype'], s_))} {case['channels']}%nat "
+                f"{H.cna(case['na'])})")
+        pre = C.clist(obs["pre"], lambda row: C.clist(row, lambda v: C.clist(v, lambda f: H.cq(Fraction(f)))))
+        term = f"(({term}) && check_num {cfg2} {x} {pre})"
+    return term
